@@ -269,6 +269,27 @@ static void junk_perm(mzp_t *P) {
     P->values[i] = mode == 0 ? i : mode == 1 ? vh_randint(0, P->length - 1) : (int)(vh_rand() % 100000) - 50000;
 }
 
+/* rank structure for the block recursion of the factorisation (column split at n1 = the word-aligned half of the columns):
+ * the rank r1 of the left part becomes a multiple of the word size below n1 - mode 0: the left part is zero (r1 = 0),
+ * mode 1: only its first word of columns is kept (r1 = 64 for enough dense rows) - and the last rows become copies of the
+ * first ones, so that rows remain below the pivot rows (their part of L is moved when L is compressed) */
+static void shape_halves(mzd_t *A, int mode) {
+  int m = A->nrows, n = A->ncols;
+  int n1 = (((n - 1) / 64 + 1) >> 1) * 64;
+  int from = mode == 0 ? 0 : 64;
+  if (n1 > from)
+    for (int i = 0; i < m; i++)
+      for (int c = from; c < n1; c += 64) mzd_clear_bits(A, i, c, 64);
+  int dup = m / 4 < 10 ? m / 4 : 10;
+  for (int t = 0; t < dup; t++)
+    for (int c = 0; c < n; c += 64) {
+      int len = n - c < 64 ? n - c : 64;
+      word v = mzd_read_bits(A, t, c, len);
+      mzd_clear_bits(A, m - 1 - t, c, len);
+      mzd_xor_bits(A, m - 1 - t, c, len, v);
+    }
+}
+
 static void ple_case(const vh_args_t *a, int op, int big) {
   int bigshape = -1;
   int m = alg_dim(a), n = alg_dim(a);
@@ -295,6 +316,7 @@ static void ple_case(const vh_args_t *a, int op, int big) {
   } else if (a->tier == 0 && (long)m * n > 260L * 200) { if (m > n) m = m / 2 + 1; else n = n / 2 + 1; }
   mzd_t *A = vh_mk(m, n, -1);
   vh_fill_profile(A, big ? ((bigshape == 3 || bigshape == 4 || bigshape >= 6) && vh_randint(0, 2) ? 9 : vh_pick((int[]){0, 1, 1, 2, 3, 3, 8}, 7)) : pick_style());
+  if (big && n > 128 && vh_randint(0, 2) == 0) shape_halves(A, vh_randint(0, 1));
   /* trailing zero rows (the factorisation routines cut them off first and must still define P for them) */
   if (vh_randint(0, 2) == 0 && m > 8) {
     int t = vh_randint(1, 6);
@@ -646,14 +668,20 @@ static void raw_mul(mzd_t *C, mzd_t *A, mzd_t *X) {
         }
 }
 
-static void solve_case(const vh_args_t *a, int op) {
+/* shapes whose factorisation enters the block recursion in the small-cache configuration (more than 8192 words) */
+static const int BIGM[] = {2100, 1400, 600, 1030, 300, 560};
+static const int BIGN[] = {260, 400, 900, 500, 2000, 960};
+
+static void solve_case(const vh_args_t *a, int op, int big) {
   int cap = a->tier ? 400 : 200;
   int m = vh_dim_small(cap), n = vh_dim_small(cap);
   switch (vh_randint(0, 2)) { case 0: n = m; break; default: break; }
   int w = vh_pick((int[]){1, 2, 63, 64, 65, 100}, 6);
+  if (big) { m = BIGM[(big - 1) % 6]; n = BIGN[(big - 1) % 6]; w = vh_pick((int[]){1, 3, 64, 65}, 4); }
   int mx = m > n ? m : n;
   mzd_t *A = vh_mk(m, n, -1);
-  vh_fill_profile(A, pick_style());
+  vh_fill_profile(A, big ? vh_pick((int[]){0, 1, 3, 9}, 4) : pick_style());
+  if (big && vh_randint(0, 3) != 0) shape_halves(A, vh_randint(0, 1));
   mzd_t *A0 = vh_new(m, n); /* pristine copy for the oracle (not passed to the call) */
   for (int i = 0; i < m; i++) for (int j = 0; j < A->width; j++) {
     word v = A->data[(size_t)i * A->rowstride + j];
@@ -724,18 +752,30 @@ int fam_solve(const vh_args_t *a) {
     if (!VH_SHARD(a, idx)) continue;
     vh_case_seed(a, idx);
     VH_CASE(idx)
-    solve_case(a, (int)(idx % 4));
+    solve_case(a, (int)(idx % 4), 0);
+    VH_CASE_END
+  }
+  if (strstr(a->extra, "nobig")) return 0;
+  for (long b = 0; b < (a->tier ? 36 : 6); b++) {
+    long bidx = 6000000 + b;
+    if (!VH_SHARD(a, bidx)) continue;
+    vh_case_seed(a, bidx);
+    VH_CASE(bidx)
+    solve_case(a, (int)((b / 6 + b) % 4), 1 + (int)b);
     VH_CASE_END
   }
   return 0;
 }
 
 /* ---------------------------------------------------------------- kernel */
-static void kernel_case(const vh_args_t *a) {
+static void kernel_case(const vh_args_t *a, int big) {
   int cap = a->tier ? 400 : 220;
   int m = vh_dim_small(cap), n = vh_dim_small(cap);
+  if (big) { m = BIGM[(big - 1) % 6]; n = BIGN[(big - 1) % 6]; }
+  if (big && n == 2000) { m = 450; n = 1300; }   /* (the validator has to reduce the n x (n - r) result) */
   mzd_t *A = vh_mk(m, n, -1);
-  vh_fill_profile(A, pick_style());
+  vh_fill_profile(A, big ? vh_pick((int[]){0, 1, 3, 9}, 4) : pick_style());
+  if (big && vh_randint(0, 3) != 0) shape_halves(A, vh_randint(0, 1));
   mzd_t *A0 = vh_new(m, n);
   for (int i = 0; i < m; i++) for (int j = 0; j < A->width; j++) {
     word v = A->data[(size_t)i * A->rowstride + j];
@@ -763,7 +803,16 @@ int fam_kernel(const vh_args_t *a) {
     if (!VH_SHARD(a, idx)) continue;
     vh_case_seed(a, idx);
     VH_CASE(idx)
-    kernel_case(a);
+    kernel_case(a, 0);
+    VH_CASE_END
+  }
+  if (strstr(a->extra, "nobig")) return 0;
+  for (long b = 0; b < (a->tier ? 24 : 6); b++) {
+    long bidx = 6000000 + b;
+    if (!VH_SHARD(a, bidx)) continue;
+    vh_case_seed(a, bidx);
+    VH_CASE(bidx)
+    kernel_case(a, 1 + (int)b);
     VH_CASE_END
   }
   return 0;
